@@ -7,6 +7,17 @@ rnd = sys.argv[3] if len(sys.argv) > 3 else "1"
 wt = f"/tmp/wt-{pid}" if rnd == "1" else f"/tmp/wt-{pid}-r{rnd}"
 outd = f"/tmp/seedout/{pid}" if rnd == "1" else f"/tmp/seedout/{pid}-r{rnd}"
 p = [json.loads(l) for l in open('/verif/properties.jsonl') if json.loads(l)['id'] == pid][0]
+prior = ""
+if rnd != "1":
+    import glob
+    sums = []
+    for f in sorted(glob.glob(f"/verif/seeded/{pid}/*/meta.json")):
+        try:
+            sums.append(json.load(open(f)).get("summary", ""))
+        except Exception:
+            pass
+    if sums:
+        prior = "Changes already produced in earlier rounds (do NOT repeat these or close variants of them; pick different functions, mechanisms, inputs or configurations):\n" + "".join(f"  - {x}\n" for x in sums if x) + "\nDo NOT use `git stash` (it is shared between worktrees and other agents work in sibling worktrees); use `git diff > file`, `git apply`, `git apply -R` and `git checkout -- .` instead.\n\n"
 print(f"""You are helping test a verification framework by producing realistic *property-breaking* code changes ("seeded bugs") for the Rust gRPC library hyperium/tonic (version 0.13.0 snapshot).
 
 Your private scratch git worktree of the repository is at {wt} (already created; work ONLY there; never touch /repo or /verif, never read anything under /verif). The machine is offline: always pass --offline to cargo, and set CARGO_TARGET_DIR={wt}/target for every cargo command so build output stays inside your worktree. 16 cores are shared with other jobs, so prefer `cargo test -p <crate> --offline` on the crates you touch over whole-workspace builds.
@@ -28,6 +39,6 @@ For each change i (1..{n}) deliver, under {outd}/m<i>/ :
   - a demonstration: a self-contained Rust test file demo.rs together with a README.md saying exactly where to put it and how to run it (for example: "copy to tonic/tests/demo.rs (or tests/integration_tests/tests/demo.rs) and run `cargo test -p tonic --test demo --offline`"). The demonstration must FAIL with the change applied and PASS without it. It should use only public APIs of the tonic crates (and dev-dependencies the target crate already has).
   - meta.json : {{"property": "{pid}", "summary": "<one line>", "needs": "<what specific input / schedule / configuration / sequence is needed for it to manifest>", "files": [..], "demo_dest": "<path relative to the repository root where demo.rs must be copied, e.g. tests/integration_tests/tests/demo_{pid}_m1.rs>", "demo_cmd": "<exact cargo command that runs only the demo, e.g. cargo test -p integration-tests --test demo_{pid}_m1 --offline>", "tests_run": ["<commands you ran and their result>"]}}
 
-Work one change at a time: edit, build, run existing tests, write demo, confirm demo fails with the change, `git stash`/`git checkout -- .` to confirm demo passes without it, save patch.diff, then reset the worktree (`git checkout -- . && git clean -fd -e target`) before the next change. Leave the worktree clean (no uncommitted changes other than target/) when you finish. Do not commit anything.
+{prior}Work one change at a time: edit, build, run existing tests, write demo, confirm demo fails with the change, `git apply -R`/`git checkout -- .` to confirm demo passes without it, save patch.diff, then reset the worktree (`git checkout -- . && git clean -fd -e target`) before the next change. Leave the worktree clean (no uncommitted changes other than target/) when you finish. Do not commit anything.
 
 Finish with a short report: for each change, one paragraph on what it breaks and what it needs to manifest, and the exact commands you used to confirm (b), (c) and the demo's fail/pass behaviour. If you could not confirm something, say so plainly.""")
